@@ -1,0 +1,9 @@
+//go:build verif
+
+package parser
+
+// Contracts for the verifier in /verif (govc). Comment-only.
+
+//@ func ParseTemplateBytes(templateBytes) (nodes, err)
+//@   trusted
+//@   modifies nothing
